@@ -1,6 +1,7 @@
 package main
 
 import (
+	"regexp"
 	"runtime"
 	"encoding/json"
 	"flag"
@@ -479,6 +480,29 @@ func (e *Engine) discharge(res *FuncResult, t *tr, body string, opt *Options) {
 		}
 		return st, r.millis, r.errors
 	}
+	// Frame obligations ("what existed at entry and is not named by modifies is unchanged", per component heap or ghost) need
+	// only the facts about that heap, about which objects existed, and the definitions of the terms these mention. They are
+	// first tried on that slice of the script: fewer hypotheses can only make a proof harder, never wrong, and it keeps the
+	// sequence / arithmetic axioms' instantiations (the source of the few diverging frame queries) out of the way.
+	runSliced := func(k int) (string, int64) {
+		o := res.Obls[k]
+		heap := frameHeapOf(o.Name)
+		if heap == "" {
+			return "", 0
+		}
+		var total int64
+		for _, minimal := range []bool{true, false} {
+			scr := hdr["z3-new"] + sliceForFrame(prefixes[k], heap, o.Guard+" "+o.Goal, minimal) + query(o)
+			f := writeScratch(fmt.Sprintf("%s_%d_slice.smt2", base, k), scr)
+			r := runSolverLimited("z3-new", f, 20*time.Second)
+			os.Remove(f)
+			total += r.millis
+			if len(r.lines) > 0 && len(r.errors) == 0 && r.lines[0] == "unsat" {
+				return "unsat", total
+			}
+		}
+		return "", total
+	}
 	var wg sync.WaitGroup
 	nOpen := 0
 	nRetry := 0
@@ -487,6 +511,18 @@ func (e *Engine) discharge(res *FuncResult, t *tr, body string, opt *Options) {
 		go func(k int) {
 			defer wg.Done()
 			o := res.Obls[k]
+			if o.Kind == "frame" && !opt.Thorough {
+				st, ms := runSliced(k)
+				vmu.Lock()
+				res.SolverMs += ms
+				if st == "unsat" {
+					o.Status, o.Solver, o.Millis = "unsat", "z3-new(sliced)", ms
+				}
+				vmu.Unlock()
+				if st == "unsat" {
+					return
+				}
+			}
 			st, ms, errs := run(k, "z3-new", wallFirst)
 			vmu.Lock()
 			res.SolverMs += ms
@@ -648,4 +684,91 @@ func writeJSON(path string, v interface{}) error {
 	}
 	os.MkdirAll(filepath.Dir(path), 0755)
 	return os.WriteFile(path, append(b, '\n'), 0644)
+}
+
+
+// frameHeapOf: the base name of the heap / ghost a frame obligation is about ("frame/H_int@return[1]" -> "H_int",
+// "frame/stream@loop[0].keep" -> "G_stream"); "" for anything else.
+func frameHeapOf(name string) string {
+	i := strings.Index(name, "frame/")
+	if i < 0 {
+		return ""
+	}
+	rest := name[i+len("frame/"):]
+	if j := strings.Index(rest, "@"); j >= 0 {
+		rest = rest[:j]
+	}
+	if rest == "" {
+		return ""
+	}
+	if strings.HasPrefix(rest, "H_") || strings.HasPrefix(rest, "M") || strings.HasPrefix(rest, "D_") {
+		return rest
+	}
+	return "G_" + rest
+}
+
+var reSymbol = regexp.MustCompile(`[A-Za-z_][A-Za-z0-9_$]*`)
+var reDefHead = regexp.MustCompile(`^\(assert \((?:=> \S+ \()?= ([A-Za-z_][A-Za-z0-9_$]*) `)
+
+// sliceForFrame keeps, of the assertions of a script prefix, those that mention the given heap (any version; in the
+// minimal form only the definitions of its versions), the predicates existed / born, or define (as `(= sym ...)`, possibly under a reachability guard) a symbol that a kept
+// assertion or the goal mentions - transitively. Everything that is not an assertion (declarations) is kept.
+func sliceForFrame(prefix, heap, goal string, minimal bool) string {
+	lines := strings.Split(prefix, "\n")
+	keep := make([]bool, len(lines))
+	defOf := map[string][]int{}
+	for i, l := range lines {
+		if !strings.HasPrefix(l, "(assert") {
+			keep[i] = true
+			continue
+		}
+		if m := reDefHead.FindStringSubmatch(l); m != nil {
+			defOf[m[1]] = append(defOf[m[1]], i)
+		}
+	}
+	need := map[string]bool{}
+	var work []string
+	addSyms := func(t string) {
+		for _, sy := range reSymbol.FindAllString(t, -1) {
+			if !need[sy] {
+				need[sy] = true
+				work = append(work, sy)
+			}
+		}
+	}
+	hv := heap + "_v"
+	for i, l := range lines {
+		if keep[i] || !strings.HasPrefix(l, "(assert") {
+			continue
+		}
+		isVersionDef := false
+		if m := reDefHead.FindStringSubmatch(l); m != nil && strings.HasPrefix(m[1], hv) {
+			isVersionDef = true
+		}
+		// minimal: how the versions of this heap are derived from one another, and the existence / allocation-order facts;
+		// otherwise also everything that says something about the heap's contents
+		if isVersionDef || strings.Contains(l, "(existed ") || strings.Contains(l, "(born ") || (!minimal && strings.Contains(l, hv)) {
+			keep[i] = true
+			addSyms(l)
+		}
+	}
+	addSyms(goal)
+	for len(work) > 0 {
+		sy := work[len(work)-1]
+		work = work[:len(work)-1]
+		for _, i := range defOf[sy] {
+			if !keep[i] {
+				keep[i] = true
+				addSyms(lines[i])
+			}
+		}
+	}
+	var sb strings.Builder
+	for i, l := range lines {
+		if keep[i] {
+			sb.WriteString(l)
+			sb.WriteString("\n")
+		}
+	}
+	return sb.String()
 }
